@@ -113,10 +113,14 @@ class State:
 
 
 class Segment:
-    __slots__ = ('src', 'dst', 'state', 'ret', 'events', 'kind')
+    __slots__ = ('src', 'dst', 'state', 'ret', 'events', 'kind', 'facts', 'shapes')
 
-    def __init__(self, src, dst, state, ret, events, kind):
+    def __init__(self, src, dst, state, ret, events, kind, facts=None, shapes=None):
         self.src, self.dst, self.state, self.ret, self.events, self.kind = src, dst, state, ret, events, kind
+        # facts / shapes at the END of the segment (for a segment ending at a loop head: before the loop cut dropped the
+        # facts about this iteration's values)
+        self.facts = facts if facts is not None else state.facts
+        self.shapes = shapes if shapes is not None else state.shapes
 
 
 class Program:
@@ -794,9 +798,10 @@ class PX:
                 raise Limit('state budget exceeded in %s' % self.top_fn)
             if top and bi in loops:
                 # loop cut: abstract the loop-modified locals, finish the segment, continue from the header node once
+                pre_facts, pre_shapes = dict(st.facts), dict(st.shapes)
                 key = self.cut(st, fid, bi, modified[bi], mir)
                 node = ('head', bi, key)
-                self.segments.append(Segment(src, node, st, None, st.events[ev0:], 'loop'))
+                self.segments.append(Segment(src, node, st, None, st.events[ev0:], 'loop', pre_facts, pre_shapes))
                 if node in self.seen_nodes:
                     continue
                 self.seen_nodes[node] = True
@@ -853,7 +858,10 @@ class PX:
                         else:
                             results.append((s2, ('PANIC',)))
                         continue
-                    self.write(s2, self.place(s2, fid, t['dest']), rv, t['sp'])
+                    dpl = self.place(s2, fid, t['dest'])
+                    self.write(s2, dpl, rv, t['sp'])
+                    if dpl[0] == 'L':
+                        s2.events.append(('def', dpl, rv, t['sp']))
                     work.append((s2, t['t'], src, ev0))
             else:
                 st.notes.append(('term?', k))
